@@ -18,7 +18,9 @@
      Listing a r   squeue answered: r = the asked ids still queued (assumption on squeue); cached
      Unrecord j    j's loop saw a listing (= the cache content) without j; _scheduled_jobs.pop(j)
      Expire        TTL expiry, any time;   Leave j   the job leaves the queue, any time
-     UndeployStart / Cancel ids / UndeployEnd   undeploy(): scancel of exactly the snapshot of _scheduled_jobs *)
+     UndeployStart / Cancel ids / UndeployEnd   undeploy(): scancel of exactly the snapshot of _scheduled_jobs;
+                   at the end _scheduled_jobs is replaced by an empty dictionary
+     PopMissing j  a run() that was still polling pops its id from that new dictionary: KeyError *)
 From Coq Require Import List Bool Arith.
 Import ListNotations.
 
@@ -26,7 +28,8 @@ Inductive event :=
 | Submit (j : nat) | Record (j : nat) | ClearBy (j : nat) | Expire
 | ListStart (asked : list nat) | Listing (asked res : list nat)
 | Leave (j : nat) | Unrecord (j : nat)
-| UndeployStart | Cancel (ids : list nat) | UndeployEnd.
+| UndeployStart | Cancel (ids : list nat) | UndeployEnd
+| PopMissing (j : nat).   (* _scheduled_jobs.pop(j) on a dictionary that no longer has j: KeyError in run() *)
 
 Record qst := mkQ { queue : list nat; ever : list nat; sched : list nat; cleared : list nat;
                     cache : option (list nat); inflight : option (list nat); snap : option (list nat);
@@ -90,7 +93,12 @@ Definition qstep (s : qst) (e : event) : option qst :=
         else None
       | None => None
       end
-  | UndeployEnd => match snap s with Some _ => Some s | None => None end
+  | UndeployEnd =>     (* undeploy() ends with `self._scheduled_jobs = {}` *)
+      match snap s with
+      | Some _ => Some (mkQ (queue s) (ever s) [] (cleared s) (cache s) (inflight s) (snap s) (finished s))
+      | None => None
+      end
+  | PopMissing j => if mem j (sched s) then None else Some s
   end.
 
 Fixpoint accept (s : qst) (tr : list event) : option qst :=
